@@ -232,7 +232,10 @@ def main():
     if "--fast" in args:
         flavours = ["san", "fast"]
     if "--all" in args:
+        # everything a registered check or self-test runs: all harnesses in the sanitizer flavour plus the guard and race ones
         targets = list(TARGETS) + GUARD_TARGETS
+        for ts in PROPERTY_TARGETS.values():
+            targets += [t for t in ts if "." in t and t not in targets]
     else:
         targets = []
         for a in args:
